@@ -24,11 +24,17 @@ Near == { e \in EntrySp : Cardinality({ f \in DOMAIN e : e[f] # Base[f] }) <= 2 
 Keytabs == { <<>> } \cup { <<e>> : e \in Near } \cup { <<Base, e>> : e \in Near } \cup { <<e, Base>> : e \in Near }
             \cup (IF MaxE >= 3 THEN { <<Base, e, f>> : e \in Near, f \in { g \in Near : g.ts = 2 } } ELSE {})
 Queries == [comps : Comps, realm : RealmsL, kvno : {0, 1, 2, 257, 513}, etype : EtypesL]
-LModel(k) == [version |-> 2, items |-> [i \in 1..Len(k) |->
+\* the abstract time stamps 1 < 2 are written under three clocks: recent dates, the first seconds of the epoch (0 and 1), and the
+\* last values of the 32-bit field (which a signed reader sees as 1969: the order of the two is the same in both readings)
+Clocks == {"recent", "epoch", "late"}
+TsBytes(c, t) == CASE c = "recent" -> BE32(1500000000 + t)
+                   [] c = "epoch" -> BE32(t - 1)
+                   [] c = "late" -> <<255, 255, 255, 253 + t>>
+LModel(k, c) == [version |-> 2, items |-> [i \in 1..Len(k) |->
                 [kind |-> "entry", realm |-> StrBytes(k[i].realm), comps |-> [j \in 1..Len(k[i].comps) |-> StrBytes(k[i].comps[j])],
-                 nameType |-> <<0, 0, 0, 1>>, ts |-> BE32(1500000000 + k[i].ts), vno8 |-> k[i].kvno % 256, ktype |-> k[i].ktype,
+                 nameType |-> <<0, 0, 0, 1>>, ts |-> TsBytes(c, k[i].ts), vno8 |-> k[i].kvno % 256, ktype |-> k[i].ktype,
                  key |-> Rep(i, 16), hasVno32 |-> TRUE, vno32 |-> BE32(k[i].kvno), trailing |-> << >>]]]
-ASSUME ndJsonSerialize("lookups.ndjson", SetToSeq({ [kt |-> k, image |-> ToHex(Render(LModel(k)))] : k \in Keytabs }))
+ASSUME ndJsonSerialize("lookups.ndjson", SetToSeq({ [kt |-> k, clock |-> c, image |-> ToHex(Render(LModel(k, c)))] : k \in Keytabs, c \in Clocks }))
 ASSUME ndJsonSerialize("queries.ndjson", SetToSeq(Queries))
 ASSUME PrintT(<<"COUNTS", Len(Models), Cardinality(Keytabs), Cardinality(Queries)>>)
 VARIABLE x
